@@ -95,6 +95,7 @@ func genShipped(L int, fns []string) func(emit func(alnCase) bool) {
 var bothFns = []string{"Global", "Local"}
 
 func runC08(r *core.Run) {
+	firstCallClause(r, "align.Global", "align.Local")
 	defer racePass(r, "race-align", "Global and Local on shared sequences and a shared matrix")
 
 	L2 := core.Pick(r, 5, 8)
